@@ -40,7 +40,7 @@ def parts(tier):
 
 KINDS = {
     "below_threshold": (gen.N, gen.NH, gen.N0),
-    "blocklisted": (gen.B, gen.BN),
+    "blocklisted": (gen.B, gen.BN, gen.BZ, gen.BZN),
     "zero_baseline": (gen.Z, gen.ZN),
 }
 
@@ -54,7 +54,7 @@ def _strategy(draw):
             min_nonrep=2,
             slack=(12, 22) if big else (0, 8),
             outliers=(True,) if big else (False,),
-            statuses=(gen.N, gen.N, gen.NH, gen.N0, gen.B, gen.BN, gen.Z, gen.ZN, gen.A, gen.T_HI),
+            statuses=(gen.N, gen.N, gen.NH, gen.N0, gen.B, gen.BN, gen.Z, gen.ZN, gen.BZ, gen.BZN, gen.A, gen.T_HI),
             max_other=14,
         )
     )
